@@ -143,8 +143,15 @@ async def run_history(loop, sc: Scenario, make=None, projector=None, latency_us=
             r = rng.random()
             if r < 0.4:
                 kw["delay"] = DelayProperties(next_execution_time=when)
-            elif r < 0.8 or sc.no_defer:
+            elif r < 0.75 or sc.no_defer:
                 kw["delay"] = DelayProperties(delay_until=when)
+            elif r < 0.88 and ttl_ms is None and delay_ms > 0:
+                # the first run of a recurring job with a long period (no stored next time: its due time is the next point of
+                # the period grid, which is anchored at its timestamp): once that point has passed the message is as due as
+                # any other, also after it has been taken and given back
+                period = timedelta(hours=1)
+                now = when - period
+                kw["delay"] = DelayProperties(defer_by=period)
             else:
                 # a recurring message that carries the time of its next execution (a retry of a periodic job whose back-off
                 # is longer than the period): the stored time is what counts, not the next point of the period grid
